@@ -37,8 +37,12 @@ NameConflict(x, y) == x = y \/ {x, y} = {3, 4}
 \* with whatever observes it, whichever handle or name either goes through
 Mutates(o) == o.op \in {"writev", "writefix"} \/ (o.op = "openat" /\ o.fl = 3)   \* fl 3 = O_RDWR|O_TRUNC
 Observes(o) == o.op \in {"readv", "readfix", "statx"} \/ Mutates(o)
+\* clashes that hold for a whole batch, chains included:
 \* a registered buffer is used by at most one operation of a batch (the driver fills / reads it around the batch)
-BufClash(a, b) == Has(a, "buf") /\ Has(b, "buf") /\ a.buf = b.buf
+BufClash(a, b) == \/ Has(a, "buf") /\ Has(b, "buf") /\ a.buf = b.buf
+                  \* entries carry descriptor NUMBERS fixed when the batch is built: once a batch closes a handle,
+                  \* which file that number names afterwards depends on the kernel's descriptor allocation order
+                  \/ Has(a, "h") /\ Has(b, "h") /\ a.h = b.h /\ "close" \in {a.op, b.op}
 Conflict(a, b) ==
     \/ Has(a, "h") /\ Has(b, "h") /\ a.h = b.h
     \/ \E x \in NamesOf(a), y \in NamesOf(b) : NameConflict(x, y)
